@@ -100,6 +100,9 @@ def check(c, r, layer_kinds, nstmts, tag, big_ok=False, huge=False):
     if r.chance(1, 3):      # mandatory parameters (session endpoints, encap's packet, ...) by name instead of by position
         from ..gen import Lib, name_mandatory
         src_enc = name_mandatory(src_enc, Lib(), r, (2, 3)); c.count('named-mandatory')
+    elif r.chance(1, 3):
+        from ..gen import respell_ints, hoist_literals
+        src_enc = hoist_literals(respell_ints(src_enc, r), r); c.count('respelled')
     impl, model = progdiff.run_both(c, src_enc)
     progdiff.compare(c, src_enc, impl, model, 'tunnel')
     key = None
